@@ -184,6 +184,14 @@ def run(ctx):
                         for nm, v in (("log_evidence", le_impl), ("ess", ess_impl), ("log_evidence_error", rel_impl)):
                             if not math.isfinite(v):
                                 ctx.violation(f"finite:{nm}:{kind}", f"{nm} = {v} for finite log-densities (magnitude {M:g})", full)
+                        # ---------------- the free helper the SMC schedule uses (utils.effective_sample_size): its callers hand it log-weights
+                        # as they are (NOT max-shifted: SMCSamples.log_weights adds the log evidence ratio), so it must itself be accurate
+                        # far outside the range of exp(): compared with the exact ESS of exactly the array it is given
+                        if kind != "neginf":
+                            h_impl = nsutil.to_float(au.effective_sample_size(s.log_w))
+                            if not close(h_impl, ess, rel_ess):
+                                ctx.violation(f"helper-ess:{kind}:{nsname}:{width}", f"utils.effective_sample_size(log_w) = {h_impl} but (sum w)^2/sum w^2 of that array is {float(ess)} "
+                                              f"(log-weights of magnitude {M:g})", full)
                         eff = nsutil.to_float(s.efficiency)
                         if not close(eff, ess_impl / n, 1e-6):
                             ctx.violation("efficiency", f"efficiency {eff} != ESS/N", full)
@@ -245,8 +253,7 @@ def run(ctx):
                                 tie("compute_weights_ess", close(ev("compute_weights_ess", **B), ess_impl, rel), str(case))
                                 tie("compute_weights_log_evidence_error", close(ev("compute_weights_log_evidence_error", **B), rel_impl, 20 * rel, 20 * rel), str(case))
                                 tie("logsumexp", close(ev("logsumexp", x=lw_mp), nsutil.to_float(au.logsumexp(s.log_w)), rel, 16 * eps * M), str(case))
-                                # the free helper is handed max-shifted log-weights, as its callers in the library do (on raw float32
-                                # log-weights of size 1e5 the helper itself loses the ESS in rounding: not the sample set's ESS, not claimed)
+                                # tie of the translated helper on max-shifted input (its accuracy on the raw array is checked above: helper-ess)
                                 lw_sh = s.log_w - s.xp.max(s.log_w)
                                 tie("effective_sample_size", close(ev("effective_sample_size", log_w=nsutil.mpf_list(nsutil.to_list(lw_sh))),
                                                                    nsutil.to_float(au.effective_sample_size(lw_sh)), rel), str(case))
